@@ -185,6 +185,19 @@ func readOnlyUse(v ssa.Value, seen map[ssa.Value]bool) (bool, ssa.Instruction, s
 				}
 				return false, x, "is passed to interface method " + m
 			}
+			// a function value read from the variable is called: the call reads the table; a function literal written
+			// in a package-level initialiser can only capture package-level variables, whose uses are classified here too
+			if _, isFunc := com.Value.Type().Underlying().(*types.Signature); isFunc && com.Value == v {
+				argIsV := false
+				for _, a := range com.Args {
+					if a == v {
+						argIsV = true
+					}
+				}
+				if !argIsV {
+					continue
+				}
+			}
 			return false, x, "is passed to a function value"
 		case *ssa.Return:
 			return false, x, "is returned (the reference escapes to the caller)"
